@@ -313,6 +313,38 @@ def random_history(rng, c, steps):
             '_decisions': decisions}
 
 
+def chain_history(c, pattern, hat_seed=0):
+    """deterministic history: every step refines the first ('F') or last ('L') interval of the named dimensions only, e.g.
+    [('L', (0, 1)), ('L', (0,))] = last interval of dimensions 0 and 1, then last interval of dimension 0.  The same object is
+    observed (scheme, point sets, interpolation) after every step."""
+    run = DimWiseRun(c['D'], c['lmin'], c['lmax'], version=c['version'], rebalancing=c['rebalancing'], boundary=c['boundary'],
+                     safety=c['sfn'] / c['sfd'], margin=c.get('margin'), a=c.get('a'), b=c.get('b'), max_hats=c.get('max_hats'), hat_seed=hat_seed)
+    run.evaluate()
+    evs = [observe(run)]
+    script = []
+    decisions = []
+    for side, dims in pattern:
+        if sum(len(run.intervals(d)) for d in range(run.D)) > c.get('maxintervals', 40):
+            break
+        B = []
+        for d in range(run.D):
+            n = len(run.intervals(d))
+            row = [0] * n
+            if d in dims:
+                row[0 if side == 'F' else n - 1] = 10
+            B.append(row)
+        sel = selection_of(run, B)
+        decisions.append(sorted((d, run.snap(d, run.intervals(d)[i].start), run.snap(d, run.intervals(d)[i].end)) for d, i in sel))
+        ev = do_step(run, B)
+        evs.append(ev)
+        script.append(B)
+        if ev['aborted']:
+            break
+    return {'cfg': trace_cfg(run, c['lmax']), 'fresh': True, 'events': [strip(e) for e in evs], 'origin': 'chain ' + c['name'],
+            '_script': {'cfg': dict(run.cfg), 'start_depth': 0, 'steps': script}, '_detail': [e.get('_detail') for e in evs],
+            '_decisions': decisions}
+
+
 def replay_decisions(cfg, decisions, **override):
     """re-run a decision history (list of steps, each a list of (d, s, e) lattice intervals) under a modified configuration;
     returns list of hats_ok-all booleans per event"""
